@@ -100,7 +100,7 @@ def _apply(nas, x, op, st, dspec, other):
     elif op == 'step':
         st['nfwd'] += 1
         torch.manual_seed(1991 + st['nfwd'])
-        params = [p for p in nas.parameters() if p.requires_grad]
+        params = st['params']
         for p in params:
             p.grad = None
         y = nas(x)
@@ -159,7 +159,7 @@ def _probe(nas, x, st, dspec, other, with_export=True):
     y = nas(x)
     obs['out'] = F.tensor_hash(y)
     # the search continues: one SGD step on loss + cost
-    params = [p for p in nas.parameters() if p.requires_grad]
+    params = st['params']
     for p in params:
         p.grad = None
     loss = torch.tanh(y).sum() + 1e-3 * (nas.get_cost('a') + nas.get_cost('b'))
@@ -181,7 +181,9 @@ def _run_history(case, seed, hist):
     st = None
     for which in ('A', 'B'):
         nas, x, dspec, other = _make(case, seed)
-        st = {'nfwd': 0, 'spec': 'orig'}
+        # the optimizer of a search is built ONCE, before any observer is called: every training step of the history and of the probes
+        # updates these parameter OBJECTS (an observer that replaces the model's parameters orphans them and the search stops learning)
+        st = {'nfwd': 0, 'spec': 'orig', 'params': [p for p in nas.parameters() if p.requires_grad]}
         for op in hist:
             _apply(nas, x, op, st, dspec, other)
         if which == 'A':
@@ -199,7 +201,7 @@ def _probe_continue(nas, x, st):
     torch.manual_seed(424242)
     y = nas(x)
     obs['out'] = F.tensor_hash(y)
-    params = [p for p in nas.parameters() if p.requires_grad]
+    params = st['params']
     for p in params:
         p.grad = None
     if st['spec'] == 'orig':
